@@ -201,12 +201,23 @@ func (g *verifGhost40) check() {
 	}
 }
 
-func (g *verifGhost40) step() {
+func (g *verifGhost40) step() { g.stepOp(rt.Choose(9)) }
+
+func (g *verifGhost40) stepOp(op int) {
 	r := g.r
 	files := []string{"f", "g"}
 	owners := []string{"o1", "o2"}
 	masks := []virtual.ShareMask{virtual.ShareMaskRead, virtual.ShareMaskWrite, virtual.ShareMaskRead | virtual.ShareMaskWrite}
-	switch rt.Choose(9) {
+	switch op {
+	case 9: // more than the lease time passes in two steps, the client renewing its lease in between
+		for k := 0; k < 2; k++ {
+			r.clock.now += int64(verifLease) * 2 / 3
+			res := r.compound(&nfsv4.NfsArgop4_OP_RENEW{Oprenew: nfsv4.Renew4args{Clientid: g.client}})
+			rt.Assert(res.Status == nfsv4.NFS4_OK, "a client that renews its lease in time stays known")
+		}
+		r.setClientID("client-z", 1)
+		g.expire()
+		rt.Cover("40:owner-idle-past-lease")
 	case 0: // OPEN, possibly an upgrade of an existing open, with a good, replayed or bad seqid
 		owner := owners[rt.Choose(2)]
 		file := files[rt.Choose(2)]
@@ -421,4 +432,26 @@ func verifHarness_C18_Sequence40() {
 	rt.Assert(oofs == 0 && lofs == 0, "after all leases expire no open or lock state remains")
 	rt.Assert(opened == 0, "after all leases expire no opened-file records remain")
 	rt.Assert(r.program.unusedOpenOwners.nextUnused == &r.program.unusedOpenOwners, "after all leases expire no open-owner records remain")
+}
+
+// An open-owner that still has a file open is never reclaimed, however long it
+// stays silent, as long as its client keeps renewing its lease.
+func verifHarness_C18_IdleOwnerKeepsOpenFiles40() {
+	rt.MustCover("40:open", "40:close", "40:owner-idle-past-lease")
+	r := verifNewRig40("f", "g")
+	g := &verifGhost40{r: r, gen: 1, owners: map[string]*verifGhostOwner{}}
+	g.client = r.setClientID("client-a", 1)
+	res := r.open(g.client, "o1", 100, "f", virtual.ShareMaskRead|virtual.ShareMaskWrite)
+	ok := res.(*nfsv4.Open4res_NFS4_OK)
+	g.used("o1", 100, nfsv4.NFS4_OK)
+	oc := r.openConfirm(r.dir.leaves["f"].handle(), ok.Resok4.Stateid, 101).(*nfsv4.OpenConfirm4res_NFS4_OK)
+	g.used("o1", 101, nfsv4.NFS4_OK)
+	g.owner("o1").confirmed = true
+	g.opens = append(g.opens, &verifGhostOpen{client: g.client, owner: "o1", file: "f", stateID: oc.Resok4.OpenStateid, mask: virtual.ShareMaskRead | virtual.ShareMaskWrite, live: true})
+	g.check()
+	g.stepOp(0) // OPEN (any owner, file, mask, sequence number)
+	g.stepOp(2) // CLOSE (any live open)
+	g.stepOp(9) // silence for more than the lease time, lease renewed
+	g.stepOp(9)
+	g.check()
 }
